@@ -6,6 +6,12 @@
    non-column entries, "scalars"), its _col_names list and its _index.
    Cell values are opaque integers; the model is compared with the
    implementation on column lists, per-column lengths and scalar keys.
+   A cell stands for whatever one row of the column holds: a number, a string,
+   an object, or a whole array (columns of shape (n,k) or (n,2,2) hold one
+   vector / matrix per row).  The length of a column is the length of its
+   first axis, so the Rect invariant and all theorems are unchanged for such
+   columns; that every operation keeps the per-row shape and content is
+   checked on the implementation by the runner.
    Definitions only; proofs are in proofs/TableRect.v.
 
    Name tokens (chosen by the harness): "columns" = 0, "row<i>" = 2i+1,
